@@ -170,9 +170,13 @@ class Checker(C.BaseChecker):
             ids = conf["geographic_unit_fips"].tolist()
             if len(set(ids)) != len(ids) or not set(ids) <= set(b["reporting_ids"]):
                 out.append(self.v("calibration_set", "calibration units are not a duplicate-free subset of the reporting units", **flags))
-            n_train = math.floor(cap["n_reporting"] * b["conf_frac"])
-            if n_cal + max(n_train, 1 if cap["n_reporting"] > 0 else 0) != cap["n_reporting"] and n_cal + n_train != cap["n_reporting"]:
-                out.append(self.v("calibration_set", f"{cap['n_reporting']} reporting units split into {n_train} training and {n_cal} calibration units", **flags))
+            # held-out means held out: the rows the lower / upper models were fitted on and the calibration rows partition the
+            # reporting units (the fit's row count comes from the solver seam)
+            if base_i is not None and base_i < len(fits) and fits[base_i].get("x") is not None:
+                n_fit_rows = int(fits[base_i]["x"].shape[0])
+                if n_fit_rows + n_cal != cap["n_reporting"]:
+                    out.append(self.v("calibration_set", f"level {alpha}: {cap['n_reporting']} reporting units, the interval models were fitted on {n_fit_rows} of them and {n_cal} are used "
+                                                         f"for calibration: the calibration units are not held out", **flags))
             scores = np.maximum(lb, ub)
             q, c_pop, c_q, c = r3(scores, w, alpha, robust)
             if math.isnan(c):
@@ -184,24 +188,45 @@ class Checker(C.BaseChecker):
             non = cap["nonreporting"]
             wl = non[wcol].to_numpy(dtype=float)
             part = non[f"results_{e}"].to_numpy(dtype=float)
-            want_lo = np.round(np.maximum((b["lower"] - c) * wl + wl, part))
-            want_up = np.round(np.maximum((b["upper"] + c) * wl + wl, part))
+            # (A) the returned bounds are the unadjusted bounds widened by ONE correction c' (then un-normalised, floored at the
+            #     partial count, rounded): recover the interval of c' values consistent with every unit on both sides
             got_lo, got_up = cap["lower"], cap["upper"]
-            edge = 1e-6
-            bad = None
-            for arr_g, arr_w, pre, name in ((got_lo, want_lo, np.maximum((b["lower"] - c) * wl + wl, part), "lower"), (got_up, want_up, np.maximum((b["upper"] + c) * wl + wl, part), "upper")):
-                diff = np.abs(arr_g - arr_w)
-                near = np.abs((pre % 1.0) - 0.5) < edge
-                ok = (diff == 0) | (near & (diff <= 1))
-                if not ok.all():
-                    i = int(np.where(~ok)[0][0])
-                    bad = (name, i, float(arr_g[i]), float(arr_w[i]))
-                    break
-            if bad:
-                # which correction would explain the reported bound?  (diagnostic flag only)
-                out.append(self.v("wrong_correction", f"level {alpha} ({'robust' if robust else 'plain'}), {n_cal} calibration units: {bad[0]} bound of unit #{bad[1]} is {bad[2]}, "
-                                                      f"the smallest correction c={c} whose weighted calibration coverage exceeds q={q:.6f} gives {bad[3]} "
-                                                      f"(population correction {c_pop}, unweighted quantile {c_q})", bound=bad[0], **flags))
+            lo_c, hi_c = -np.inf, np.inf
+            for arr, b_un, sign in ((got_lo, b["lower"], -1.0), (got_up, b["upper"], +1.0)):
+                free = (arr > part) & (wl > 0)  # floor not binding: the rounded value determines c' up to +-0.5/w
+                if free.any():
+                    centre = sign * ((arr[free] - wl[free]) / wl[free] - b_un[free])
+                    half = 0.5000001 / wl[free]
+                    lo_c, hi_c = max(lo_c, float((centre - half).max())), min(hi_c, float((centre + half).min()))
+                bound = (~free) & (wl > 0)  # floor binding: c' may be anything that keeps the widened bound at or below the count
+                if bound.any():
+                    lim = sign * ((part[bound] + 0.5000001 - wl[bound]) / wl[bound] - b_un[bound])
+                    if sign < 0:
+                        lo_c = max(lo_c, float(lim.max()))  # lower bound sits at the count: c' is at least this large
+                    else:
+                        hi_c = min(hi_c, float(lim.min()))  # upper bound sits at the count: c' is at most this large
+            if lo_c > hi_c:
+                out.append(self.v("not_a_single_correction", f"level {alpha} ({'robust' if robust else 'plain'}): no single correction explains the reported bounds of all outstanding units "
+                                                             f"(needs c' >= {lo_c} and c' <= {hi_c})", **flags))
+            elif np.isfinite(hi_c):
+                # (B) with that correction the baseline-weighted share of calibration units inside their widened interval
+                #     exceeds q; robust: the correction is also at least the unweighted q-quantile of the scores
+                # same arithmetic as a cumulative weighted share over the scores in ascending order ("exceeds" is strict; an
+                # exact tie share == q happens for equal weights, e.g. alpha = 0.5 with 3 calibration units)
+                order_ = np.argsort(scores, kind="stable")
+                cum_ = np.cumsum((w / w.sum())[order_])
+                n_in = int((scores[order_] <= hi_c).sum())
+                share_best = float(cum_[n_in - 1]) if n_in else 0.0
+                tied_at_boundary = n_in >= 2 and scores[order_][n_in - 1] == scores[order_][n_in - 2]
+                if not (share_best > q if not tied_at_boundary else share_best > q - 1e-12):
+                    out.append(self.v("under_coverage", f"level {alpha}, {n_cal} calibration units: the applied correction (at most {hi_c}) covers a weighted share {share_best:.6f} of the calibration "
+                                                        f"units, required more than q={q:.6f} (smallest admissible correction {c_pop})", bound="both", **flags))
+                elif robust and not math.isnan(c_q) and hi_c < c_q - 1e-9:
+                    out.append(self.v("under_coverage", f"level {alpha} (robust): applied correction at most {hi_c} is below the unweighted q-quantile {c_q} of the scores", bound="robust", **flags))
+                if lo_c <= c <= hi_c:
+                    st.probes["correction_is_the_smallest_admissible_one"] += 1
+                elif c < lo_c:
+                    st.probes["correction_larger_than_necessary"] += 1
             ties = len(set(scores.tolist())) < n_cal
             st.probes["correction_negative" if c < 0 else "correction_non_negative"] += 1
             if ties:
